@@ -171,6 +171,10 @@ func (*c08) Execute(ci any) (res any) {
 		}
 		obs.Hooks = c08Hooks(rel.Hooks)
 		obs.Manifest = []byte(rel.Manifest)
+	case "full":
+		c08RunFull(c, &obs)
+	case "lower":
+		obs.Lowered = []byte(strings.ToLower(string(c.Raw)))
 	case "uninstall":
 		c08RunUninstall(c, &obs)
 	case "barrier":
